@@ -62,7 +62,9 @@ func c07Env_() *c07Env {
 		withFirst.Cols = append([]model.Col{{Name: "aaa", Kind: model.Int, Cells: []model.Cell{model.I(9), model.I(9), model.I(9), model.I(9)}}}, withFirst.Cols...)
 		for _, q := range []qframe.QFrame{model.Build(base.Rows(nil)), model.Build(base.Rows([]int{2})), model.Build(base).Sort(qframe.Order{Column: "i"}).Slice(3, 4),
 			model.Build(withFirst).Drop("aaa"),
-			model.Build(base).Eval("ev0", qframe.Expr("+", qframe.Expr("abs", types.ColumnName("i")), 1))} {
+			model.Build(base).Eval("ev0", qframe.Expr("+", qframe.Expr("abs", types.ColumnName("i")), 1)),
+			// 70 rows (the base rows in a mixed order, repeated): beyond any blocked or unrolled loop
+			model.Build(base.Rows(c07BigRows())), model.BuildShape(base.Rows(c07BigRows()), model.ShapeSparsePerm)} {
 			o := model.Observe(q)
 			o.AdoptMeta(base)
 			e.real = append(e.real, q)
@@ -77,7 +79,15 @@ func c07ShapeName(s int) string {
 	if s < model.NShapes {
 		return model.ShapeNames[s]
 	}
-	return []string{"zero-rows", "one-row", "one-row-of-a-sorted-frame", "first-column-dropped", "after-an-eval"}[s-model.NShapes]
+	return []string{"zero-rows", "one-row", "one-row-of-a-sorted-frame", "first-column-dropped", "after-an-eval", "70-rows", "70-rows-sparseperm"}[s-model.NShapes]
+}
+
+func c07BigRows() []int {
+	ix := make([]int, 70)
+	for r := range ix {
+		ix[r] = (r*3 + r/4) % 4
+	}
+	return ix
 }
 
 func runEvalCase(c evalCase) *core.Failure {
@@ -258,7 +268,7 @@ func c07Run(ctx *core.Ctx) {
 						if !ctx.Mine() {
 							continue
 						}
-						shape := int(ctx.Index() % int64(model.NShapes+5))
+						shape := int(ctx.Index() % int64(model.NShapes+7))
 						exec(evalCase{Shape: shape, Dst: dst, Expr: e, Style: style, User: user})
 					}
 				}
